@@ -202,6 +202,14 @@ func (j *judge) judgeHostile() {
 		if n <= 0 {
 			n = 16
 		}
+		// a destination that can grow must not be asked to grow by an
+		// attacker-controlled amount: at most what was actually delivered
+		// plus a few blocks
+		for _, wt := range r.WTSinks {
+			if lim := 2*len(D) + 8*bm + (1 << 20); wt.MaxGrow > lim {
+				j.add("memory", "grow", "R%d: the WriteTo destination was asked to grow by %d bytes while %d bytes were delivered (block maximum %d)", ri, wt.MaxGrow, len(D), bm)
+			}
+		}
 		allocLimit := uint64(96<<20) + 16*uint64(len(stored)) + (uint64(len(stored)/4)+uint64(4*n+16))*2*uint64(bm)
 		if j.out.AllocBytes > allocLimit {
 			j.add("memory", "alloc", "R%d: %d bytes allocated while reading a %d-byte stream (bound %d, block maximum %d)", ri, j.out.AllocBytes, len(stored), allocLimit, bm)
